@@ -170,8 +170,25 @@ Definition poisson_est (xs : list A) (gamma : option (list lw)) : option A :=
   | inl _ => None
   end.
 
-(* geometric: f x = Log(x + 1); p = exp(sum_g - sum_m); constructor rejects p <= 0 and p > 1 *)
+(* geometric (HEAD 936dc43): f x = Log(x + 1); p = exp(math.Min(sum_g - sum_m, 0.0)); constructor rejects
+   p <= 0 and p > 1.  math.Min: a positive difference (rounding of the LogAdd sums, or sum_m = -Inf) becomes 0,
+   -Inf stays -Inf (p = 0, rejected), NaN (-Inf - -Inf) stays NaN. *)
+Definition lmin0 (d : A) : A := if ltb N (zero N) d then zero N else d.
+Definition lratio_min0 (a b : lw) : bool + A :=
+  match a, b with
+  | Some x, Some y => inr (EXP (lmin0 (x -! y)))
+  | None, Some _ => inr (zero N)
+  | Some _, None => inr (EXP (zero N))      (* Min(+Inf, 0) = 0 *)
+  | None, None => inl false
+  end.
 Definition geometric_est (xs : list A) (gamma : option (list lw)) : option A :=
+  let '(m, g) := lmerge (lacc (fun x => logx (x +! one N)) None None 0%Z xs gamma) in
+  match lratio_min0 g m with
+  | inr v => if leb N v (zero N) || ltb N (one N) v then None else Some v
+  | inl _ => None
+  end.
+(* the estimator before the fix (kept for the regression lemma: it could return an error where p = 1 is optimal) *)
+Definition geometric_est_prefix (xs : list A) (gamma : option (list lw)) : option A :=
   let '(m, g) := lmerge (lacc (fun x => logx (x +! one N)) None None 0%Z xs gamma) in
   match lratio g m with
   | inr v => if leb N v (zero N) || ltb N (one N) v then None else Some v
